@@ -2,6 +2,7 @@
   name, dir (module dir), pkg (dir relative to module), harness [files relative to /verif], runs [calls],
   solver, qtimeout(ms), timeout(s per engine process), replay (bool), covers {fn: [cover tags]}.
 """
+import os
 
 def _c05(tier, seed):
     q = tier == "quick"
@@ -71,7 +72,11 @@ def _c17(tier, seed):
     runs = ["H_C17_table(%d,%d)" % (r, sig) for r in range(15)] + ["H_C17_arbitrary(%d)" % (24 if q else 28), "H_C17_catalogue()"]
     return [dict(name="errors", pkg=".", harness=["harness/root/c17.go"], runs=runs, solver="z3",
                  validate_runs=["H_C17_table(4,4)", "H_C17_table(5,4)", "H_C17_arbitrary(12)", "H_C17_catalogue()"],
-                 covers={"H_C17_table": ["numeric", "non-numeric"], "H_C17_arbitrary": ["no-row"]})]
+                 covers={"H_C17_table": ["numeric", "non-numeric"], "H_C17_arbitrary": ["no-row"]}),
+            dict(name="delivery", pkg=".", harness=["harness/root/net.go", "harness/root/c16.go", "harness/root/c17.go", "harness/root/c17b.go"],
+                 runs=["H_C17_delivery(%d)" % r for r in ([-1, 2, 4, 5] if q else [-1] + [r for r in range(15) if r != 9])] + ["H_C17_migrate(0)", "H_C17_migrate(1)"],
+                 solver="z3", walllimit=600, timeout=3000, replay="schedule", crash_tags=["process-survives"],
+                 validate_runs=["H_C17_delivery(4)"], veclen=100, covers={"H_C17_migrate": ["configured", "unconfigured"]})]
 
 def _c20(tier, seed):
     q = tier == "quick"
@@ -91,6 +96,7 @@ def _c20(tier, seed):
                  covers={"H_C20_joinchat": ["invite"]})]
 
 TL_HARNESS = ["harness/telegram/gen.go", "harness/telegram/num.go", "harness/telegram/c01.go"]
+_REPO = os.environ.get("VERIF_REPO", "/repo")
 TL_OVERLAY = {"/repo/internal/encoding/tl/zz_verif_export.go": "harness/tl/export.go"}
 N_STRUCTS = 1168  # upper bound used to size sweeps; indices past the registry are trivial runs
 N_ENUMS = 64
@@ -137,7 +143,7 @@ def _c01(tier, seed):
 def _gen_schema(sdir):
     import subprocess, os
     out = os.path.join(sdir, "zz_schema_gen.go")
-    r = subprocess.run(["python3", os.path.join(os.path.dirname(os.path.abspath(__file__)), "genschema.py"), out, "/repo/schemes/api_121.tl", "/repo/schemes/mtproto.tl"], capture_output=True, text=True)
+    r = subprocess.run(["python3", os.path.join(os.path.dirname(os.path.abspath(__file__)), "genschema.py"), out, _REPO + "/schemes/api_121.tl", _REPO + "/schemes/mtproto.tl"], capture_output=True, text=True)
     if r.returncode != 0:
         raise SystemExit("genschema failed: " + r.stderr)
     return [out]
@@ -402,10 +408,10 @@ PROPS = {
     ),
     "C17": dict(
         jobs=_c17,
-        bounds={"quick": "each of the 15 table rows with every parameter string of length 0..4 (all bytes symbolic: digits, signs, non-digits, '%'); every error text of length 0..24 with every 32-bit code; all catalogue entries (ground)",
-                "thorough": "parameter strings 0..7; texts 0..28"},
-        outside="longer texts / parameters (incl. integers overflowing int); formatting of descriptions that take a parameter (fmt is stubbed); delivery to the caller and PHONE_MIGRATE handling (needs the request loop; see C09/C16 notes)",
-        assumptions=["fmt.Sprintf/Errorf and pkg/errors are opaque total functions"],
+        bounds={"quick": "each of the 15 table rows with every parameter string of length 0..4 (all bytes symbolic: digits, signs, non-digits, '%'); every error text of length 0..24 with every 32-bit code; all catalogue entries (ground); each table row also through RpcErrorToNative; delivery: two callers in flight over the library's own receive loop, rpc_error (every code; arbitrary text of 0..6 bytes or rows FILE_PART/FLOOD_WAIT/INTERDC with a 1..2 digit parameter) addressed to either of them, answered in either order; PHONE_MIGRATE_d for every digit d against a list configuring data centres 2 and 4 (transport factory hooked), alone and with a second call in flight",
+                "thorough": "parameter strings 0..7; texts 0..28; delivery for all 14 non-migration rows"},
+        outside="longer texts / parameters (incl. integers overflowing int); formatting of descriptions that take a parameter (fmt is stubbed); real reconnection (sockets, a new key exchange on the new data centre); what happens to other calls in flight during a migration beyond 'the client survives'; more than two callers",
+        assumptions=["fmt.Sprintf/Errorf and pkg/errors are opaque total functions", "cooperative scheduling model, fake transport at the messages.Common level, transport.NewTransport hooked inside the engine for the migration scenario (not replayable natively)"],
     ),
     "C08": dict(
         jobs=_c08,
